@@ -46,6 +46,34 @@ def reader (c : Conn) (inbuf : List UInt8) (eof : Bool) : Conn × List UInt8 :=
   | r => (readerStop c r eof, inbuf)
 termination_by inbuf.length
 
+/-! ### with an event sender registered (`config.event_sender = Some(..)`; the control connection) -/
+
+/-- A frame on stream `-1` is handed to `handle_event` (1880-1930): `parse_response` must yield `Response::Event`
+(`eventOk`: the EVENT opcode and a body that deserializes as an event) — then the event is forwarded and the
+request path is not touched; anything else ends the router with `CqlEventHandlingError`. Other streams as before. -/
+def deliverFrameEv (eventOk : Frame → Bool) (c : Conn) (f : Frame) : Conn :=
+  if f.stream = -1 then
+    if c.broken then c
+    else if eventOk f then c
+    else step c (.break_ .cqlEventHandlingError)
+  else deliverFrame c f
+
+/-- `reader` for a connection with an event sender. -/
+def readerEv (eventOk : Frame → Bool) (c : Conn) (inbuf : List UInt8) (eof : Bool) : Conn × List UInt8 :=
+  if c.broken then (c, inbuf) else
+  match h : readFrame inbuf with
+  | .frame f rest =>
+    have : rest.length < inbuf.length := readFrame_rest_lt h
+    readerEv eventOk (deliverFrameEv eventOk c f) rest eof
+  | r => (readerStop c r eof, inbuf)
+termination_by inbuf.length
+
+/-- BYTES: the frame the reader hands to request `r` when the whole frames `fs` arrive in state `c` — the first
+frame on the stream that carries `r` (a second frame on that stream would be unsolicited). The model's
+`Outcome.frame r` names the request; this function names the bytes (`Props.C10.delivered_frame_was_sent`). -/
+def answerOf (c : Conn) (fs : List Frame) (r : Nat) : Option Frame :=
+  fs.find? (fun f => decide (0 ≤ f.stream) && c.server.contains (f.stream.toNat, r))
+
 /-! ### the keepaliver -/
 
 structure KaSt where
@@ -58,6 +86,8 @@ structure KaSt where
   hint : Bool := false           -- the stored permit of `keepalive_hint` (`Connection::trigger_keepalive`, called by
                                  -- the pool on a STATUS_CHANGE DOWN event; `Notify::notify_one` stores ONE permit)
   full : Bool := false           -- the submit channel has no free slot right now (the keep-alive request parks)
+  preferTick : Bool := false     -- `select!` picks among READY arms at random: when a tick is due AND a hint is
+                                 -- stored, this is the draw (true = the tick arm; the hint stays for the next round)
 
 /-- One turn of the keepaliver task. -/
 def kaTurn (k : KaSt) : KaSt :=
@@ -77,10 +107,10 @@ def kaTurn (k : KaSt) : KaSt :=
   | none =>
     -- the keep-alive request is an ordinary `send_request`: it takes a slot of the submit channel, or parks
     let submitEv : Ev := if k.full then .submitFull else .submit
-    if k.hint then
+    if k.hint && !(k.preferTick && decide (k.clock ≥ k.next)) then
       -- `select!`: the hint arm — `interval.reset()`: the next periodic probe is a full interval away — and a probe
-      -- is issued at once. (If a tick is due at the same time `select!` picks one of the two arms at random; the
-      -- other stays ready for the next iteration. The model takes the hint arm.)
+      -- is issued at once. (If a tick is due at the same time `select!` picks one of the two ready arms at random —
+      -- `preferTick` —; the hint then stays stored and is consumed by the next iteration.)
       { k with c := step k.c submitEv, pending := some (k.c.nextReq, k.clock + k.timeout),
                next := k.clock + k.interval, hint := false }
     else if k.clock ≥ k.next then
